@@ -498,6 +498,13 @@ def cluster_graph(rng, kinds=None, size=(2, 6), noise_t=0.05, noise_r=0.03, init
     vmap = {v["id"]: v for v in vertices}
     if fix_mode == "first":
         pass
+    elif fix_mode == "none_prior":
+        # no fixed vertex at all: every cluster is anchored by a unary pose prior instead (well-posed without any fixed flag)
+        for (k, ids) in clusters:
+            a = ids[int(rng.integers(len(ids)))]
+            edges.append({"type": "custom:prior", "ids": [a], "info": spd(rng, R.CD[k], 10.0, cr()).tolist(), "est": perturb(rng, k, truth[a], noise_t, noise_r), "est_kind": k,
+                          "numeric": False})
+        labels.add("no_fixed_vertex_prior_anchored")
     else:
         for (k, ids) in clusters:
             vmap[ids[int(rng.integers(len(ids)))]]["fixed"] = True
